@@ -860,6 +860,11 @@ def _exec_job(job):
     return execute(sc, mutant)
 
 
+def _worker_init(init=None):
+    tlc._die_with_parent()          # a killed check leaves no worker behind
+    common._init_worker(init, ())
+
+
 def _pmap(fn, items, init=None, chunksize=None):
     """common.pmap with one difference: a worker process that disappears (killed by the kernel under memory
     pressure) ends the run as a machinery failure instead of leaving the parent waiting for ever."""
@@ -871,11 +876,30 @@ def _pmap(fn, items, init=None, chunksize=None):
         return common.pmap(fn, items, init=init)
     cs = chunksize or max(1, len(items) // (nproc * 8))
     try:
-        with cf.ProcessPoolExecutor(nproc, mp_context=mp.get_context('fork'), initializer=common._init_worker,
-                                    initargs=(init, ())) as ex:
+        with cf.ProcessPoolExecutor(nproc, mp_context=mp.get_context('fork'), initializer=_worker_init,
+                                    initargs=(init,)) as ex:
             return list(ex.map(common._guarded, [(fn, x) for x in items], chunksize=cs))
     except cf.process.BrokenProcessPool as e:
         raise common.MachineryError('a worker process of the check died (%s)' % (e,))
+
+
+def _in_child(fn, arg):
+    """fn(arg) in a forked child: what it allocates on the way (parsed TLC behaviours: gigabytes in the thorough
+    tier) is returned to the system when the child ends, and the pools forked later start from a small parent."""
+    import concurrent.futures as cf
+    import multiprocessing as mp
+    try:
+        with cf.ProcessPoolExecutor(1, mp_context=mp.get_context('fork'), initializer=_worker_init) as ex:
+            return ex.submit(fn, arg).result()
+    except cf.process.BrokenProcessPool as e:
+        raise common.MachineryError('a worker process of the check died (%s)' % (e,))
+
+
+def _sim_job(a):
+    cfg, helper, dh, dv, dl, nsim, seed = a
+    rs, behs = tlc.simulate('MC_Flight.tla', cfg, num=nsim, depth=900, seed=seed % 100000, timeout=1200)
+    rs.output = rs.output[-4000:]
+    return rs, [x for x in (scenario_from_behaviour(b, helper, dh, dv, dl) for b in behs) if x]
 
 
 def run_scenarios(scs, mutant=None):
@@ -1015,9 +1039,9 @@ def main(tier, seed, replay=None):
     nsim = 150 if tier == 'quick' else 1500
     sims = []
     for cfg, helper, dh, dv, dl in (('SIM_Flight.cfg', 'MC', 300, 500, 0), ('SIM_Flight_hl.cfg', 'PHC', 500, 500, 0)):
-        rs, behs = tlc.simulate('MC_Flight.tla', cfg, num=nsim, depth=900, seed=seed % 100000, timeout=1200)
+        rs, some = _in_child(_sim_job, (cfg, helper, dh, dv, dl, nsim, seed))
         out.add_tlc('%s (-simulate num=%d)' % (cfg, nsim), rs)
-        sims += [x for x in (scenario_from_behaviour(b, helper, dh, dv, dl) for b in behs) if x]
+        sims += some
     sim_scs = [x[0] for x in sims]
     sim_traces = run_scenarios(sim_scs)
 
